@@ -1,0 +1,366 @@
+//! Abstract finite map / set standing in for `std::collections::{HashMap, HashSet}`
+//! (only compiled with `--cfg prometheus_verif_map`).
+//!
+//! Contract modelled: a finite map with **arbitrary iteration order**. When
+//! `set_symbolic_order(true)` is in force every structural change re-draws a rotation and a
+//! direction for the iteration order (all n! orders for n <= 3 entries), so hash seed and bucket
+//! layout become solver variables; otherwise iteration follows insertion order.
+#![allow(missing_docs, dead_code, missing_debug_implementations, static_mut_refs)]
+use std::borrow::Borrow;
+use std::marker::PhantomData;
+
+static mut SYMBOLIC_ORDER: bool = false;
+/// Make iteration order a nondeterministic choice (see module docs).
+pub fn set_symbolic_order(on: bool) {
+    unsafe { SYMBOLIC_ORDER = on }
+}
+
+#[derive(Clone, Copy)]
+struct Order {
+    rot: usize,
+    rev: bool,
+}
+impl Order {
+    const ID: Order = Order { rot: 0, rev: false };
+    fn draw(n: usize) -> Order {
+        if unsafe { SYMBOLIC_ORDER } && n > 1 {
+            let rot = crate::verif_rt::any_usize();
+            crate::verif_rt::assume(rot < n);
+            Order { rot, rev: crate::verif_rt::any_bool() }
+        } else {
+            Order::ID
+        }
+    }
+    /// position `i` of the iteration -> index into the backing vector
+    fn at(&self, i: usize, n: usize) -> usize {
+        let j = if self.rev { n - 1 - i } else { i };
+        let k = j + self.rot;
+        if k >= n {
+            k - n
+        } else {
+            k
+        }
+    }
+}
+
+pub struct HashMap<K, V, S = std::collections::hash_map::RandomState> {
+    items: Vec<(K, V)>,
+    order: Order,
+    _s: PhantomData<S>,
+}
+impl<K: Clone, V: Clone, S> Clone for HashMap<K, V, S> {
+    fn clone(&self) -> Self {
+        HashMap { items: self.items.clone(), order: self.order, _s: PhantomData }
+    }
+}
+impl<K: std::fmt::Debug, V: std::fmt::Debug, S> std::fmt::Debug for HashMap<K, V, S> {
+    fn fmt(&self, f: &mut std::fmt::Formatter<'_>) -> std::fmt::Result {
+        f.debug_map().entries(self.items.iter().map(|kv| (&kv.0, &kv.1))).finish()
+    }
+}
+impl<K, V, S> Default for HashMap<K, V, S> {
+    fn default() -> Self {
+        HashMap { items: Vec::new(), order: Order::ID, _s: PhantomData }
+    }
+}
+impl<K, V, S> HashMap<K, V, S> {
+    pub fn new() -> Self {
+        Self::default()
+    }
+    pub fn with_capacity(_n: usize) -> Self {
+        Self::default()
+    }
+    pub fn len(&self) -> usize {
+        self.items.len()
+    }
+    pub fn is_empty(&self) -> bool {
+        self.items.is_empty()
+    }
+    pub fn clear(&mut self) {
+        self.items.clear();
+        self.order = Order::ID;
+    }
+    pub fn iter(&self) -> Iter<'_, K, V> {
+        Iter { items: &self.items, order: self.order, i: 0 }
+    }
+    pub fn keys(&self) -> Keys<'_, K, V> {
+        Keys { it: self.iter() }
+    }
+    pub fn values(&self) -> Values<'_, K, V> {
+        Values { it: self.iter() }
+    }
+}
+impl<K: PartialEq, V, S> HashMap<K, V, S> {
+    fn find<Q: ?Sized + PartialEq>(&self, k: &Q) -> Option<usize>
+    where
+        K: Borrow<Q>,
+    {
+        let mut i = 0;
+        while i < self.items.len() {
+            if self.items[i].0.borrow() == k {
+                return Some(i);
+            }
+            i += 1;
+        }
+        None
+    }
+    pub fn get<Q: ?Sized + PartialEq>(&self, k: &Q) -> Option<&V>
+    where
+        K: Borrow<Q>,
+    {
+        match self.find(k) {
+            Some(i) => Some(&self.items[i].1),
+            None => None,
+        }
+    }
+    pub fn get_mut<Q: ?Sized + PartialEq>(&mut self, k: &Q) -> Option<&mut V>
+    where
+        K: Borrow<Q>,
+    {
+        match self.find(k) {
+            Some(i) => Some(&mut self.items[i].1),
+            None => None,
+        }
+    }
+    pub fn contains_key<Q: ?Sized + PartialEq>(&self, k: &Q) -> bool
+    where
+        K: Borrow<Q>,
+    {
+        self.find(k).is_some()
+    }
+    pub fn insert(&mut self, k: K, v: V) -> Option<V> {
+        match self.find(&k) {
+            Some(i) => Some(std::mem::replace(&mut self.items[i].1, v)),
+            None => {
+                self.items.push((k, v));
+                self.order = Order::draw(self.items.len());
+                None
+            }
+        }
+    }
+    pub fn remove<Q: ?Sized + PartialEq>(&mut self, k: &Q) -> Option<V>
+    where
+        K: Borrow<Q>,
+    {
+        match self.find(k) {
+            Some(i) => {
+                let v = self.items.remove(i).1;
+                self.order = Order::draw(self.items.len());
+                Some(v)
+            }
+            None => None,
+        }
+    }
+    pub fn entry(&mut self, k: K) -> Entry<'_, K, V, S> {
+        match self.find(&k) {
+            Some(i) => Entry::Occupied(OccupiedEntry { m: self, i }),
+            None => Entry::Vacant(VacantEntry { m: self, k }),
+        }
+    }
+}
+pub struct Iter<'a, K, V> {
+    items: &'a Vec<(K, V)>,
+    order: Order,
+    i: usize,
+}
+impl<'a, K, V> Iterator for Iter<'a, K, V> {
+    type Item = (&'a K, &'a V);
+    fn next(&mut self) -> Option<Self::Item> {
+        let n = self.items.len();
+        if self.i >= n {
+            return None;
+        }
+        let kv = &self.items[self.order.at(self.i, n)];
+        self.i += 1;
+        Some((&kv.0, &kv.1))
+    }
+    fn size_hint(&self) -> (usize, Option<usize>) {
+        let r = self.items.len() - self.i;
+        (r, Some(r))
+    }
+}
+impl<'a, K, V> ExactSizeIterator for Iter<'a, K, V> {}
+pub struct Keys<'a, K, V> {
+    it: Iter<'a, K, V>,
+}
+impl<'a, K, V> Iterator for Keys<'a, K, V> {
+    type Item = &'a K;
+    fn next(&mut self) -> Option<&'a K> {
+        self.it.next().map(|kv| kv.0)
+    }
+    fn size_hint(&self) -> (usize, Option<usize>) {
+        self.it.size_hint()
+    }
+}
+impl<'a, K, V> ExactSizeIterator for Keys<'a, K, V> {}
+pub struct Values<'a, K, V> {
+    it: Iter<'a, K, V>,
+}
+impl<'a, K, V> Iterator for Values<'a, K, V> {
+    type Item = &'a V;
+    fn next(&mut self) -> Option<&'a V> {
+        self.it.next().map(|kv| kv.1)
+    }
+    fn size_hint(&self) -> (usize, Option<usize>) {
+        self.it.size_hint()
+    }
+}
+impl<'a, K, V> ExactSizeIterator for Values<'a, K, V> {}
+impl<'a, K, V, S> IntoIterator for &'a HashMap<K, V, S> {
+    type Item = (&'a K, &'a V);
+    type IntoIter = Iter<'a, K, V>;
+    fn into_iter(self) -> Iter<'a, K, V> {
+        self.iter()
+    }
+}
+pub struct IntoIter<K, V> {
+    items: Vec<Option<(K, V)>>,
+    order: Order,
+    i: usize,
+}
+impl<K, V> Iterator for IntoIter<K, V> {
+    type Item = (K, V);
+    fn next(&mut self) -> Option<(K, V)> {
+        let n = self.items.len();
+        if self.i >= n {
+            return None;
+        }
+        let j = self.order.at(self.i, n);
+        self.i += 1;
+        self.items[j].take()
+    }
+}
+impl<K, V, S> IntoIterator for HashMap<K, V, S> {
+    type Item = (K, V);
+    type IntoIter = IntoIter<K, V>;
+    fn into_iter(self) -> IntoIter<K, V> {
+        let order = self.order;
+        let mut items = Vec::with_capacity(self.items.len());
+        for kv in self.items {
+            items.push(Some(kv));
+        }
+        IntoIter { items, order, i: 0 }
+    }
+}
+impl<K: PartialEq, V, S> std::iter::FromIterator<(K, V)> for HashMap<K, V, S> {
+    fn from_iter<I: IntoIterator<Item = (K, V)>>(it: I) -> Self {
+        let mut m = HashMap::default();
+        for (k, v) in it {
+            m.insert(k, v);
+        }
+        m
+    }
+}
+impl<K: PartialEq, V, S> Extend<(K, V)> for HashMap<K, V, S> {
+    fn extend<I: IntoIterator<Item = (K, V)>>(&mut self, it: I) {
+        for (k, v) in it {
+            self.insert(k, v);
+        }
+    }
+}
+pub enum Entry<'a, K, V, S> {
+    Occupied(OccupiedEntry<'a, K, V, S>),
+    Vacant(VacantEntry<'a, K, V, S>),
+}
+pub struct OccupiedEntry<'a, K, V, S> {
+    m: &'a mut HashMap<K, V, S>,
+    i: usize,
+}
+pub struct VacantEntry<'a, K, V, S> {
+    m: &'a mut HashMap<K, V, S>,
+    k: K,
+}
+impl<'a, K, V, S> OccupiedEntry<'a, K, V, S> {
+    pub fn get(&self) -> &V {
+        &self.m.items[self.i].1
+    }
+    pub fn get_mut(&mut self) -> &mut V {
+        &mut self.m.items[self.i].1
+    }
+    pub fn into_mut(self) -> &'a mut V {
+        &mut self.m.items[self.i].1
+    }
+}
+impl<'a, K, V, S> VacantEntry<'a, K, V, S> {
+    pub fn insert(self, v: V) -> &'a mut V {
+        self.m.items.push((self.k, v));
+        let n = self.m.items.len();
+        self.m.order = Order::draw(n);
+        &mut self.m.items[n - 1].1
+    }
+}
+impl<'a, K, V, S> Entry<'a, K, V, S> {
+    pub fn or_insert_with<F: FnOnce() -> V>(self, f: F) -> &'a mut V {
+        match self {
+            Entry::Occupied(o) => o.into_mut(),
+            Entry::Vacant(v) => v.insert(f()),
+        }
+    }
+    pub fn or_insert(self, v: V) -> &'a mut V {
+        self.or_insert_with(|| v)
+    }
+}
+
+#[derive(Clone, Debug)]
+pub struct HashSet<T> {
+    items: Vec<T>,
+}
+impl<T> Default for HashSet<T> {
+    fn default() -> Self {
+        HashSet { items: Vec::new() }
+    }
+}
+impl<T: PartialEq> HashSet<T> {
+    pub fn new() -> Self {
+        Self::default()
+    }
+    pub fn len(&self) -> usize {
+        self.items.len()
+    }
+    pub fn contains(&self, t: &T) -> bool {
+        let mut i = 0;
+        while i < self.items.len() {
+            if &self.items[i] == t {
+                return true;
+            }
+            i += 1;
+        }
+        false
+    }
+    pub fn insert(&mut self, t: T) -> bool {
+        if self.contains(&t) {
+            false
+        } else {
+            self.items.push(t);
+            true
+        }
+    }
+    pub fn remove(&mut self, t: &T) -> bool {
+        let mut i = 0;
+        while i < self.items.len() {
+            if &self.items[i] == t {
+                self.items.remove(i);
+                return true;
+            }
+            i += 1;
+        }
+        false
+    }
+    pub fn iter(&self) -> std::slice::Iter<'_, T> {
+        self.items.iter()
+    }
+}
+impl<T: PartialEq> Extend<T> for HashSet<T> {
+    fn extend<I: IntoIterator<Item = T>>(&mut self, it: I) {
+        for t in it {
+            self.insert(t);
+        }
+    }
+}
+impl<T> IntoIterator for HashSet<T> {
+    type Item = T;
+    type IntoIter = std::vec::IntoIter<T>;
+    fn into_iter(self) -> std::vec::IntoIter<T> {
+        self.items.into_iter()
+    }
+}
